@@ -241,7 +241,54 @@ func runC12(c *Ctx) {
 	}
 	c.obRF("R12.3", f, "error-returns-after-go", nErr >= 5, "error exits after the go statement exist and are checked", fmt.Sprintf("%d", nErr))
 	// success return hands out the request built over the body
-	c.min("R12.3", 6)
+	// … and in Submit: once the request is built (its upload goroutine may be running, its files are open), it is
+	// handed to client.Do — whose contract is to close the body — on every path. An early exit in between (a fail-fast
+	// on a cancelled context, a validation …) abandons the body. Exempted: the exit after a failing request dump in
+	// Debug mode (diagnostics, not part of an exchange's ways to end).
+	{
+		creates := callsIn(sub, "(*rt/client.Runtime).createHttpRequest")
+		sends := callsIn(sub, "(*net/http.Client).Do")
+		if len(creates) == 1 && len(sends) >= 1 {
+			cr := creates[0].(*ssa.Call)
+			cerr := resultOf(cr, 2)
+			failed := factNil(errAlias(cerr), false)
+			debugOn := factBool(func(v ssa.Value) bool {
+				return vFieldLoadO("rt/client.Runtime", "Debug")(v) || vFieldLoad("rt/client.Runtime", "Debug", nil)(v)
+			}, true)
+			for _, r := range realReturns(sub) {
+				if !pathExists(sub, cr, r, nil, nil) {
+					continue
+				}
+				abandoned := pathExists(sub, cr, r, anyFact(failed, debugOn), isOneOf(toInstrs(sends)...))
+				c.obI("R12.3", r, "built-request-always-sent", !abandoned, "after the request was built, every exit of Submit lies behind client.Do (which closes the request body: the multipart goroutine ends and the upload files are closed)", "a return is reachable between building the request and client.Do: the request body is never closed (files stay open, the multipart writer stays blocked)")
+			}
+		} else {
+			c.obRF("R12.3", sub, "builds-then-sends", false, "Submit builds one request and sends it", "")
+		}
+	}
+	// closing the request body must close the pipe: the body given to the request for a multipart upload IS the pipe's
+	// read end (wrapped in anything that is no io.Closer — a bufio.Reader — http.NewRequest gives it a no-op Close, and
+	// a transport error leaves the writer goroutine blocked with the files open)
+	for _, pc := range callsIn(f, "io.Pipe") {
+		pipe, okP := pc.(*ssa.Call)
+		if !okP {
+			continue
+		}
+		rdEnd := resultOf(pipe, 0)
+		for _, in := range ownInstrs(f) {
+			st, isSt := in.(*ssa.Store)
+			if !isSt {
+				continue
+			}
+			al, isAl := st.Addr.(*ssa.Alloc)
+			if !isAl || typeStr(al.Type()) != "*io.Reader" || rdEnd == nil || !derivedFrom(st.Val, rdEnd, 3) {
+				continue
+			}
+			okB, bad := allOrigins(st.Val, oIsValue(rdEnd))
+			c.obI("R12.3", st, "body-is-the-pipe-read-end-itself", okB, "the multipart body handed to the request is the pipe's read end itself, so that the transport closing the body releases the writer goroutine", "the body is "+describeOrigin(bad)+", built around the pipe: its Close does not reach the pipe")
+		}
+	}
+	c.min("R12.3", 7)
 
 	// R12.4 goroutine
 	var fileCloser, pipeCloser *ssa.Defer
@@ -301,52 +348,9 @@ func runC12(c *Ctx) {
 			c.obI("R12.4", r, "pipe-closer-registered-on-every-exit", !pathExists(g, nil, r, nil, isOneOf(pipeCloser)), "the pipe closer is registered before any exit", "")
 		}
 	}
-	// failures reach CloseWithError (directly, or through a helper such as logClose that does so on every path)
-	for _, in := range instrs(g) {
-		call, ok := in.(*ssa.Call)
-		if !ok || errorResultIndex(call.Call.Signature()) < 0 {
-			continue
-		}
-		n := calleeName(&call.Call)
-		if infallible[n] || isCloseWithError(call) {
-			continue // the error of CloseWithError itself is not a failure of the upload
-		}
-		ev := errValueOf(call)
-		if ev == nil {
-			c.obI("R12.4", call, "failure-propagated-"+n, false, "every failing step of the upload reaches pw.CloseWithError(err)", "error dropped")
-			continue
-		}
-		isProp := func(i2 ssa.Instruction) bool { return failsPipeWith(i2, ev) }
-		isEOF := func(cond ssa.Value, branch bool) bool {
-			// err == io.EOF is not a failure of the sniffing read
-			cnd, b := stripNot(cond, branch)
-			bo, ok := cnd.(*ssa.BinOp)
-			if !ok || (bo.Op != token.EQL && bo.Op != token.NEQ) {
-				return false
-			}
-			isE := func(v ssa.Value) bool {
-				ad, ok := derefLoad(v)
-				if !ok {
-					return false
-				}
-				gl, ok := ad.(*ssa.Global)
-				return ok && short(gl.String()) == "io.EOF"
-			}
-			isEv := errAlias(ev)
-			if !((isEv(bo.X) && isE(bo.Y)) || (isEv(bo.Y) && isE(bo.X))) {
-				return false
-			}
-			return b == (bo.Op == token.EQL)
-		}
-		lost := false
-		for _, r := range realReturns(g) {
-			if pathExists(g, call, r, anyFact(factNil(errAlias(ev), true), isEOF), isProp) {
-				lost = true
-			}
-		}
-		c.obI("R12.4", call, "failure-propagated-"+n, !lost, "every failing step of the upload (field write, sniffing read, part creation, copy) reaches pw.CloseWithError(err) before the goroutine exits, so the transport's read of the body fails", "a failure can end the goroutine through the plain Close: the body looks complete")
-	}
-	c.min("R12.4", 8)
+	ruleUploadFailuresPropagated(c, "R12.4", g)
+	ruleCopyFailureKept(c, "R12.4")
+	c.min("R12.4", 9)
 
 	// R12.5 keep-alive
 	cl := p.Fn("(*rt/client.drainingReadCloser).Close")
@@ -373,9 +377,30 @@ func runC12(c *Ctx) {
 			ld := asCall(v)
 			return ld != nil && calleeName(&ld.Call) == "sync/atomic.LoadUint32"
 		}
-		c.obI("R12.5", ci, "drain-only-when-end-unseen", guardedBy(ci, nil, factEqInt(seen, 1, false)), "the body is drained only when its end was not seen", "")
+		_ = seen
+		c.obI("R12.5", ci, "drain-only-when-end-unseen", guardedBy(ci, nil, endSeenFact(false)), "the body is drained only when its end was not seen", "")
 		a := ci.Common().Args
 		c.obI("R12.5", ci, "drains-wrapped-body", isRdr(unboxed(a[1])) || vFieldLoadO("rt/client.drainingReadCloser", "rdr")(a[1]), "the drain reads the wrapped body", "")
+	}
+	// the whole unread remainder is drained: when the end was not seen, the wrapped body is closed only after an
+	// unbounded io.Copy(io.Discard, body) — a bounded or partial drain leaves a connection that cannot be reused
+	{
+		seen := func(v ssa.Value) bool {
+			ld := asCall(v)
+			return ld != nil && calleeName(&ld.Call) == "sync/atomic.LoadUint32"
+		}
+		var drains []ssa.Instruction
+		for _, ci := range callsIn(cl, "io.Copy") {
+			a := ci.Common().Args
+			if isRdr(unboxed(a[1])) || vFieldLoadO("rt/client.drainingReadCloser", "rdr")(a[1]) {
+				drains = append(drains, ci)
+			}
+		}
+		for _, ic := range inner {
+			_ = seen
+			undrained := pathExists(cl, nil, ic, endSeenFact(true), isOneOf(drains...))
+			c.obI("R12.5", ic, "unread-remainder-drained-before-close", !undrained, "when the end of the body was not seen, the body is read to its end (io.Copy to io.Discard, unbounded) before it is closed", "the wrapped body can be closed with an unread remainder that was not drained to the end")
+		}
 	}
 	rd := p.Fn("(*rt/client.drainingReadCloser).Read")
 	for _, ci := range allCalls(rd) {
@@ -405,7 +430,7 @@ func runC12(c *Ctx) {
 			return b == (bo.Op == token.EQL)
 		}
 		zero := factEqInt(vOrigins(oIsValue(n)), 0, true)
-		for _, st := range callsIn(rd, "sync/atomic.StoreUint32") {
+		for _, st := range callsIn(rd, "sync/atomic.StoreUint32", "(*sync/atomic.Bool).Store") {
 			c.obI("R12.5", st, "end-seen-only-at-eof-or-empty-read", guardedBy(st, call, anyFact(isEOFfact, zero)), "the end of the body is recorded only when Read returned io.EOF or no bytes — a merely short read is not the end (the drain must still run so the connection can be reused)", "the end is recorded on a condition other than io.EOF / n == 0")
 		}
 		for _, r := range realReturns(rd) {
@@ -656,4 +681,151 @@ func alwaysCallsUnlessNilReceiver(f *ssa.Function, k ssa.CallInstruction) bool {
 		}
 	}
 	return true
+}
+
+// ruleCopyFailureKept: where the streamed body is copied into the request's buffer for the auth writer (the GetBody
+// override of buildHTTP), a failed copy stays recorded: the variable that receives io.Copy's error is written again
+// only on paths on which that error was nil (closing the source, whatever its outcome, never turns a truncated copy
+// into a success), and the buffer becomes the body only then.
+func ruleCopyFailureKept(c *Ctx, rule string) {
+	f := c.P.Fn("(*rt/client.request).buildHTTP")
+	cands := append(anonFuncsDeep(f), c.P.newTypeMethods()...)
+	n := 0
+	for _, g := range cands {
+		for _, ci := range callsIn(g, "io.Copy") {
+			call, ok := ci.(*ssa.Call)
+			if !ok || call.Parent() != g {
+				continue
+			}
+			if !vFieldLoadO(clientReqT, "buf")(call.Call.Args[0]) && !vFieldLoad(clientReqT, "buf", nil)(call.Call.Args[0]) {
+				continue
+			}
+			cerr := resultOf(call, 1)
+			if cerr == nil {
+				continue
+			}
+			// where the copy error is kept
+			var cell *ssa.Alloc
+			var first *ssa.Store
+			for _, in := range ownInstrs(g) {
+				if st, isSt := in.(*ssa.Store); isSt && st.Val == cerr {
+					if cl := cellOf(st.Addr); cl != nil {
+						cell, first = cl, st
+					}
+				}
+			}
+			if cell == nil {
+				c.obRI(rule, call, "copy-error-recorded", false, "the error of the copy into the buffer is recorded in a variable of buildHTTP", "the variable receiving io.Copy's error was not recognised")
+				continue
+			}
+			n++
+			isCopyErr := func(v ssa.Value) bool {
+				if v == cerr {
+					return true
+				}
+				ad, isLd := derefLoad(v)
+				return isLd && cellOf(ad) == cell
+			}
+			for _, in := range ownInstrs(g) {
+				st, isSt := in.(*ssa.Store)
+				if !isSt || st == first || cellOf(st.Addr) != cell {
+					continue
+				}
+				if !pathExists(g, call, st, nil, nil) {
+					continue
+				}
+				c.obI(rule, st, "copy-failure-not-overwritten", guardedBy(st, first, factNil(isCopyErr, true)), "the recorded copy error is overwritten (by the result of closing the source) only when the copy itself succeeded: a failed, truncated copy is never turned into a success", "the copy error can be overwritten by a later result although the copy failed (the truncated buffer is then sent as the body and the request reports success)")
+			}
+		}
+	}
+	c.obRF(rule, f, "auth-copy-site", n >= 1, "buildHTTP copies a streamed body into the buffer for the auth writer", "")
+}
+
+// ruleUploadFailuresPropagated: in the multipart writer goroutine every failing step (field write, sniffing read, part
+// creation, copy) reaches pw.CloseWithError(err) before the goroutine exits, so the reader of the pipe sees the
+// failure instead of a complete-looking document. (C12: a failing upload source is never a successful request; C11:
+// the document sent contains every file with its full content — or the send fails.)
+func ruleUploadFailuresPropagated(c *Ctx, rule string, g *ssa.Function) {
+	// failures reach CloseWithError (directly, or through a helper such as logClose that does so on every path)
+	for _, in := range instrs(g) {
+		call, ok := in.(*ssa.Call)
+		if !ok || errorResultIndex(call.Call.Signature()) < 0 {
+			continue
+		}
+		n := calleeName(&call.Call)
+		if infallible[n] || isCloseWithError(call) {
+			continue // the error of CloseWithError itself is not a failure of the upload
+		}
+		ev := errValueOf(call)
+		if ev == nil {
+			c.obI(rule, call, "failure-propagated-"+n, false, "every failing step of the upload reaches pw.CloseWithError(err)", "error dropped")
+			continue
+		}
+		isProp := func(i2 ssa.Instruction) bool { return failsPipeWith(i2, ev) }
+		isEOF := func(cond ssa.Value, branch bool) bool {
+			// err == io.EOF is not a failure of the sniffing read
+			cnd, b := stripNot(cond, branch)
+			bo, ok := cnd.(*ssa.BinOp)
+			if !ok || (bo.Op != token.EQL && bo.Op != token.NEQ) {
+				return false
+			}
+			isE := func(v ssa.Value) bool {
+				ad, ok := derefLoad(v)
+				if !ok {
+					return false
+				}
+				gl, ok := ad.(*ssa.Global)
+				return ok && short(gl.String()) == "io.EOF"
+			}
+			isEv := errAlias(ev)
+			if !((isEv(bo.X) && isE(bo.Y)) || (isEv(bo.Y) && isE(bo.X))) {
+				return false
+			}
+			return b == (bo.Op == token.EQL)
+		}
+		lost := false
+		for _, r := range realReturns(g) {
+			if pathExists(g, call, r, anyFact(factNil(errAlias(ev), true), isEOF), isProp) {
+				lost = true
+			}
+		}
+		c.obI(rule, call, "failure-propagated-"+n, !lost, "every failing step of the upload (field write, sniffing read, part creation, copy) reaches pw.CloseWithError(err) before the goroutine exits, so the transport's read of the body fails", "a failure can end the goroutine through the plain Close: the body looks complete")
+	}
+}
+
+// derivedFrom: some origin of v is target, or the result of a call one of whose arguments is derived from target.
+func derivedFrom(v, target ssa.Value, depth int) bool {
+	for _, o := range originsOf(v) {
+		if o.V == target {
+			return true
+		}
+		if ex, isEx := target.(*ssa.Extract); isEx && o.V == ex.Tuple && o.Index == ex.Index {
+			return true
+		}
+		if depth == 0 {
+			continue
+		}
+		if call := asCall(o.V); call != nil {
+			for _, a := range call.Call.Args {
+				if derivedFrom(a, target, depth-1) {
+					return true
+				}
+			}
+		}
+	}
+	return false
+}
+
+// endSeenFact: the edge establishes that the "end of body seen" flag of the draining wrapper is set (want) or clear:
+// the flag may be a uint32 read with atomic.LoadUint32 and compared with 1, or an atomic.Bool read with Load().
+func endSeenFact(want bool) EdgePred {
+	isLoadU32 := func(v ssa.Value) bool {
+		ld := asCall(v)
+		return ld != nil && calleeName(&ld.Call) == "sync/atomic.LoadUint32"
+	}
+	isLoadBool := func(v ssa.Value) bool {
+		ld := asCall(v)
+		return ld != nil && calleeName(&ld.Call) == "(*sync/atomic.Bool).Load"
+	}
+	return anyFact(factEqInt(isLoadU32, 1, want), factBool(isLoadBool, want))
 }
